@@ -64,7 +64,8 @@ SPEC = {
     "lean_modules": ["RsslVerif.Thm.C06"],
     "theorems": [T + n for n in [
         "slice_cost_table", "alloc_shape_as_modelled", "params_of_targets_ok", "params_of_targets", "index_ranges_tile",
-        "inline_offsets_tile", "binding_complete", "inline_buffers_correct", "assign_ok_of_root_kinds",
+        "inline_offsets_tile", "binding_complete", "inline_buffers_correct", "assign_never_panics",
+        "register_class_iff_resource", "non_resource_global_is_inert",
         "compile_shape_as_modelled", "per_pipeline_default_group", "fresh_module_unbound", "per_pipeline_tiling",
         "by_name_agrees_with_whole_file", "metadata_is_the_allocation"]],
     "harness": "c06",
